@@ -395,6 +395,21 @@ func c15Relay(c *Ctx, px *c15Proxier) {
 				}
 			}
 		}
+		// a copier closure started after the event was emitted (or its emission deferred) in the enclosing function
+		if !recorded && w.fn.Parent() != nil {
+			for _, mc := range MakeClosures(w.fn.Parent()) {
+				if mc.Fn != w.fn {
+					continue
+				}
+				for _, b := range w.fn.Parent().Blocks {
+					for _, in := range b.Instrs {
+						if px.recordsEvent(in) && before(in, mc) {
+							recorded = true
+						}
+					}
+				}
+			}
+		}
 		if !recorded {
 			allow := func(b *ssa.BasicBlock, i int) bool {
 				iff, ok := b.Instrs[len(b.Instrs)-1].(*ssa.If)
